@@ -42,7 +42,14 @@ func execUnionExprUnion(context *exprContext, expr *grammar.Grammar) error {
 		return fmt.Errorf("cannot union non-NodeSet's")
 	}
 
-	context.result = unionCleanup(append(leftNodeSet, rightNodeSet...))
+	// The operands may be owned by the caller (variables, earlier results),
+	// so the union is built in a new slice instead of appending to and sorting
+	// the left operand in place.
+	union := make(NodeSet, 0, len(leftNodeSet)+len(rightNodeSet))
+	union = append(union, leftNodeSet...)
+	union = append(union, rightNodeSet...)
+
+	context.result = unionCleanup(union)
 	return nil
 }
 
